@@ -1,13 +1,20 @@
 """C10 -- the OMEN generator enumerates each level exactly."""
 from pyvc.runner import Prop, Bounded, script_replay
 import contracts.omen_gen as og
+import contracts.omen_loader as oml
 
 PROP = Prop(
     'C10', 'The OMEN generator enumerates each level exactly',
-    functions=[og.GSM + '._find_cp', og.GSM + '._format_guess', og.MCM + '._find_first_object'],
+    functions=[og.GSM + '._find_cp', og.GSM + '._format_guess', og.MCM + '._find_first_object',
+               # 'for a given OMEN model': the model the generator enumerates is the one stored in the ruleset files
+               oml.IO + ':_load_ngrams#ip', oml.IO + ':_load_ngrams#cp', oml.IO + ':_load_length'],
+    lemmas=oml.lemmas,
     level='other',
     replay=script_replay('replay/omen.py', default_fn='ENUM'),
-    bounded=[Bounded('C10.bounded.enum', 'replay/omen.py', args=['--fn', 'ENUM'],
+    bounded=[Bounded('C10.bounded.loaddet', 'replay/omen.py', args=['--fn', 'LOADDET'],
+                     bound='two trained rulesets (n-gram 3 and 4), loaded in three processes with PYTHONHASHSEED 1, 2, 77',
+                     clause='the loaded model (and the order inside its lists) does not depend on the process'),
+             Bounded('C10.bounded.enum', 'replay/omen.py', args=['--fn', 'ENUM'],
                      bound='250 random OMEN models quick / 1500 thorough (n-gram 2-3, alphabets of 2-3 letters, lengths up to 5, sparse or dense, dead-end prefixes, '
                            'levels 0..10 assigned at random), every level 0..24 in a shuffled order with repeats, one optimizer shared across the whole history',
                      clause='exactness: the multiset of strings emitted at level L equals the independent brute-force enumeration of the strings whose costs sum to L, '
